@@ -41,13 +41,13 @@ def main():
     try:
         dst = None
         if copy_to:
-            rel = re.sub(r"^/tmp/wt_C\d+/", "", copy_to).lstrip("/")
+            rel = re.sub(r"^/tmp/wt\d*_C\d+/", "", copy_to).lstrip("/")
             dst = os.path.join(wt, rel)
         run_cmd = None
         if run:
             run_cmd = re.sub(r"^\s*cd\s+\S+\s*&&\s*", "", run)
             run_cmd = re.sub(r"^.*?(go test)", r"\1", run_cmd, count=1)
-            run_cmd = re.sub(r"/tmp/wt_C\d+", wt, run_cmd)
+            run_cmd = re.sub(r"/tmp/wt\d*_C\d+", wt, run_cmd)
         if dst and demo_src and run_cmd:
             os.makedirs(os.path.dirname(dst), exist_ok=True)
             shutil.copy(demo_src, dst)
